@@ -82,6 +82,53 @@ impl TypeParams {
         }
     }
 
+    /// Reports type parameters whose concrete type mentions the parameter itself, directly
+    /// (`type T = Option<T>`) or through other parameters, and forgets those types:
+    /// substituting them would never end.
+    pub fn check_recursive_types(&mut self, errors: &mut Errors) {
+        let mentions = |ty: &Type, type_params: &[(Ident, Option<Type>)]| {
+            let mut found = Vec::new();
+            traverse_type(&mut ty.clone(), &mut |ty| {
+                if let Type::Path(tp) = ty {
+                    if tp.qself.is_none() {
+                        found.extend(type_params.iter().position(|(p, _)| tp.path.is_ident(p)));
+                    }
+                }
+            });
+            found
+        };
+
+        let recursive = (0..self.type_params.len())
+            .filter(|&start| {
+                let mut seen = vec![false; self.type_params.len()];
+                let mut todo = vec![start];
+                while let Some(param) = todo.pop() {
+                    if let Some(ty) = &self.type_params[param].1 {
+                        for next in mentions(ty, &self.type_params) {
+                            if next == start {
+                                return true;
+                            }
+                            if !std::mem::replace(&mut seen[next], true) {
+                                todo.push(next);
+                            }
+                        }
+                    }
+                }
+                false
+            })
+            .collect::<Vec<_>>();
+
+        for param in recursive {
+            let (name, ty) = &mut self.type_params[param];
+            if let Some(ty) = ty.take() {
+                errors.err(
+                    format!("The concrete type of {name} is defined in terms of {name} itself"),
+                    ty.span(),
+                );
+            }
+        }
+    }
+
     pub fn set_source_lifetime(&mut self, source_lifetime: TokenStream, errors: &mut Errors) {
         mod kw {
             syn::custom_keyword!(none);
